@@ -38,7 +38,8 @@ def generate(rng, n, tier):
         rows = rng.randint(3, 10)
         vals = rng.choice([[0, 1, 2], [1, 3, 4, 9, 20], [0, 5], [0.5, 0.25, 1.75, 3],
                            [10 ** 8, 10 ** 8 + 1, 10 ** 8 + 3, 2 * 10 ** 8 + 1, 3],          # large constant + small detail: near-tied totals
-                           [2 ** 24 + 1, 2 ** 24 + 3, 2 ** 25 + 1, 1], [2.0 ** -20, 1 + 2.0 ** -20, 2, 1]])
+                           [2 ** 24 + 1, 2 ** 24 + 3, 2 ** 25 + 1, 1], [2.0 ** -20, 1 + 2.0 ** -20, 2, 1],
+                           [0, 2.0 ** -40, 2.0 ** -39], [2.0 ** -40, 3 * 2.0 ** -40, 2.0 ** -38, 0]])     # tiny scale (exact in binary): the optimum does not depend on the unit
         out.append({'C': sym_matrix(rows, vals, rng), 'mode': rng.choice([0, 1])})
     return out
 
